@@ -4,7 +4,7 @@ import vt
 vt.use_repo()
 warnings.simplefilter('ignore')
 from vt import api
-from vt.api import cond, deep, fam, tier
+from vt.api import cond, deep, fam, tier, pick
 from vt.absbytes import LenSeq, LenFile
 from pynetdicom2 import dimsemessages as dm, asceprovider, dsutils, pdu
 
@@ -180,7 +180,7 @@ def encode_contents(data: bytes, cid: int, mi: int, as_file: bool) -> bool:
     pre: len(data) <= _dl() and 1 <= cid <= 255 and 0 <= mi <= 3
     post: _
     """
-    M = MS[mi]
+    M = MS[pick(mi, 0, 3)]
     cls = MSG_CLASSES[fam('cls')]
     msg = cls()
     fp = None
